@@ -170,8 +170,18 @@ func Torn(name string, data []byte, perm os.FileMode) {
 // "time=").  The harness advances it where mrp would have waited.
 var ClockOffset time.Duration
 
+// Frozen, when not the zero time, is what the wall clock of rewritten files
+// shows (plus ClockOffset): the harness owns the clock, so that "within the
+// same second" is a decision of the explorer and not an accident of the run.
+var Frozen time.Time
+
 // Now replaces time.Now in rewritten files.
-func Now() time.Time { return time.Now().Add(ClockOffset) }
+func Now() time.Time {
+	if !Frozen.IsZero() {
+		return Frozen.Add(ClockOffset)
+	}
+	return time.Now().Add(ClockOffset)
+}
 
 // Getpid is os.Getpid unless the explorer overrides it.
 func Getpid() int {
